@@ -19,7 +19,7 @@
 (* Switches (TRUE = the algorithm the spec stands for; FALSE = a known-wrong variant that   *)
 (* TLC must reject):                                                                        *)
 (*   TupleFix     FALSE: slice assignment on the deep-copied defaults even when they are a  *)
-(*                tuple (the code before proposed_fixes/C05_tuple_defaults.diff): TypeError *)
+(*                tuple (the code before /repo commit 9521f35): TypeError                   *)
 (*   CounterFirst FALSE: the counter is incremented after the put                           *)
 (*   FreshPipe    FALSE: restart() keeps the old results channel                            *)
 (*   ResetClosed  FALSE: restart() carries _closed over to the new incarnation              *)
@@ -61,7 +61,7 @@ Target(a, kw) == IF IsSpecial(a) THEN [t |-> SpecTag(a[1]), a |-> <<>>, kw |-> <
                  ELSE [t |-> "echo", a |-> a, kw |-> kw]
 KwSeq(d, x) == SelectSeq(d, LAMBDA p : p[1] \notin Keys(x)) \o x
 
-NoPend == [op |-> "none", k |-> 0, nread |-> 0, late |-> "F", pre |-> <<"F", "idle">>]
+NoPend == [op |-> "none", k |-> 0, nread |-> 0, late |-> "F", pre |-> <<"F", "idle", 0>>]
 FreshInc(id) == [enq |-> <<>>, raw |-> <<>>, late |-> <<>>, calls |-> <<>>, first |-> "none", alive0 |-> "T",
                  waited |-> "none", result |-> [k |-> "na", n |-> 0], fault |-> "none", id |-> id,
                  name |-> "nm", userid |-> "u", endk |-> "final", oldos |-> "na", rraised |-> <<>>]
@@ -83,8 +83,9 @@ HasStuck == \/ cpc = "stuck" \/ (cpc = "run" /\ IsStuck(cur))
 CanCall == ppc = "ready" /\ steps < MaxSteps /\ (Settle => Quiet)
 BoolStr(b) == IF b THEN "T" ELSE "F"
 \* what the replay driver must establish before issuing a call (the settled state the call starts in)
-Pre == <<BoolStr(resQ # <<>>), IF cpc = "dead" THEN "dead" ELSE IF cpc = "stuck" THEN "stuck" ELSE "idle">>
-LogP(op, out, pre) == /\ h' = (IF Hist THEN Append(h, <<op, out, pre[1], pre[2]>>) ELSE h)
+\* <<results readable?, child state, number of readable results>>
+Pre == <<BoolStr(resQ # <<>>), IF cpc = "dead" THEN "dead" ELSE IF cpc = "stuck" THEN "stuck" ELSE "idle", Len(resQ)>>
+LogP(op, out, pre) == /\ h' = (IF Hist THEN Append(h, <<op, out, pre[1], pre[2], pre[3]>>) ELSE h)
                       /\ steps' = steps + 1
 Log(op, out) == LogP(op, out, Pre)
 NRead == Len(Valid(I.raw))
